@@ -7,8 +7,8 @@ the NOISE upstream whose picture changes with an epoch counter that the harness 
             per-level sqlite caches, single-tile and meta-tile creation (2x2, 3x2, +-buffer, bulk_meta_tiles for tile
             sources, minimize_meta_requests), WMS and tile sources.  Operations: request tiles (TMS, WMS GetMap,
             TileManager.load_tile_coords), set tile timestamps to threshold+delta (os.utime / SQL UPDATE), change the
-            threshold (tm._refresh_before / re-utime of the mtime file), make the upstream fail (HTTP 500, html body) and
-            recover.
+            threshold (tm._refresh_before / re-utime of the mtime file), make the upstream fail (HTTP 500/404, html body,
+            non-image body labelled image/png) and recover.
   seeding : seed.yaml `refresh_before` executed by mapproxy.seed.seeder.seed() (concurrency 1, worker body run on a
             thread so that the upstream log stays in this process), +-skip_uncached, +-coverage, levels list/range, an
             optional failing upstream (one stale meta tile), then a second seed run after recovery.
@@ -40,7 +40,15 @@ from vlib import core, upstream, scenario
 PID = 'C13'
 LEVEL = 'exploration'
 BUDGET_S = {'quick': 40, 'thorough': 600}
-FLOORS = {'quick': {}, 'thorough': {}}
+FLOORS = {'quick': {'histories': 530, 'serve_histories': 390, 'seed_histories': 135, 'seed_tasks': 310, 'stale_refetched': 2800,
+                    'fresh_served_from_cache': 9300, 'failed_refresh_kept_old': 920, 'refreshed_after_recovery': 340,
+                    'boundary_dont_care': 1450, 'threshold_changes': 620, 'seed_stale_refetched': 1240,
+                    'seed_fresh_untouched': 6900, 'seed_failed_refresh_kept_old': 95, 'stale_served_on_error': 55},
+          'thorough': {'histories': 8500, 'serve_histories': 6500, 'seed_histories': 1900, 'seed_tasks': 4500,
+                       'stale_refetched': 45000, 'fresh_served_from_cache': 137000, 'failed_refresh_kept_old': 15800,
+                       'refreshed_after_recovery': 6000, 'boundary_dont_care': 22000, 'threshold_changes': 10700,
+                       'seed_stale_refetched': 17600, 'seed_fresh_untouched': 96000, 'seed_failed_refresh_kept_old': 1400,
+                       'stale_served_on_error': 850}}
 RULE = ("case = one history on one generated configuration (backend file tc/tms/mp | sqlite; meta 1x1, 2x2, 3x2, +-buffer, "
         "bulk meta tiles, minimize_meta_requests; source wms | tile; rule kind time string / YAML timestamp / mtime file / "
         "relative age; time zone). serving history = fill, then 3-6 rounds of {stamp tiles at threshold+delta, delta in "
@@ -54,11 +62,13 @@ ASSUMPTIONS = [
     "stale = timestamp <= threshold, fresh = timestamp >= threshold + 1 s; the open interval between is don't-care "
     "(one-second granularity of thresholds and of the sqlite timestamp column)",
     "relative ages: threshold = wall clock - age, read by the harness around the request; tiles within 1800 s of it are "
-    "don't-care; ages are >= 6 h so that tiles written during the history are unambiguously fresh",
+    "don't-care; ages are >= 6 h so that tiles written during the history are unambiguously fresh; when a DST change lies "
+    "between now and now - age, both readings of the age (elapsed seconds / same local clock time) bound the don't-care band",
     "a failed refresh is not a write: the tile keeps the state (timestamp, content) it had before the failed attempt",
     "a fresh tile may be refetched when its meta tile (aligned block; with minimize_meta_requests: the bounding rectangle "
     "of the non-fresh requested tiles) holds a stale, missing or don't-care tile; then both epochs are accepted",
-    "with a failing upstream a request may fail or serve the old tile; nothing else is accepted",
+    "with a failing upstream (HTTP 500, HTTP 404, 200 text/html, 200 image/png whose body is no image) a request may fail "
+    "or serve the old tile; nothing else is accepted, and afterwards every tile that was in the cache is byte-identical",
     "seed tasks: only meta tiles overlapping the coverage by at least half a tile are judged (the rest is C11's subject); "
     "creation of missing tiles is C11's subject and only counted",
     "seed worker body (TileSeedWorker.work_loop) runs on a thread instead of a forked process; exp_backoff sleeps are "
@@ -312,7 +322,7 @@ def gen_serve_ops(rng, spec):
         fail = rng.random() < 0.3
         rq = pick_req()
         if fail:
-            ops.append({'op': 'fail', 'how': rng.choice(['http500', 'html200', 'http404'])})
+            ops.append({'op': 'fail', 'how': rng.choice(['http500', 'html200', 'http404', 'garbage_png'])})
             ops.append(rq)
             ops.append({'op': 'recover'})
             ops.append(dict(rq) if rng.random() < 0.8 else pick_req())
@@ -507,6 +517,11 @@ class World(object):
             return None
         return data, st.st_mtime_ns / 1e9
 
+    def same_ts(self, stored, written):
+        if self.spec['backend'] == 'sqlite':
+            return abs(stored - math.floor(written)) < 1e-3
+        return abs(stored - written) < 1e-3
+
     def set_ts(self, c, ts):
         c = tuple(c)
         if self.spec['backend'] == 'sqlite':
@@ -548,15 +563,22 @@ class World(object):
 
     # ---- upstream calls -> covered tiles ----------------------------------------------------------------------------
     def call_cover(self, call):
+        """tiles whose rectangle the upstream request covers (parsed here: faulted calls never reach the renderer)"""
         if call.kind == 'getmap':
-            q = call.extra.get('q')
-            if not q:
+            try:
+                q = call.extra.get('q') or upstream.parse_getmap(call)
+            except Exception:
                 return set()
             res = (q['bbox'][2] - q['bbox'][0]) / q['size'][0]
             z = min(range(3), key=lambda k: abs(math.log(res / self.gi.res[k])))
             return self.gi.covered(q['bbox'], z)
         t = call.extra.get('tile')
-        return set([tuple(t)]) if t else set()
+        if not t:
+            m = re.search(r'/(\d+)/(\d+)/(\d+)\.png$', call.path)
+            if not m:
+                return set()
+            t = (int(m.group(2)), int(m.group(3)), int(m.group(1)))
+        return set([tuple(t)])
 
 
 @contextlib.contextmanager
@@ -597,6 +619,8 @@ def fault_fn(how):
             return upstream.Resp(b'internal error', 'text/plain', 500)
         if how == 'http404':
             return upstream.Resp(b'not here', 'text/plain', 404)
+        if how == 'garbage_png':
+            return upstream.Resp(b'\x89PNG\r\n\x1a\n this is no image', 'image/png', 200)
         return upstream.Resp(b'<html><body>maintenance</body></html>', 'text/html', 200)
     return f
 
@@ -624,8 +648,9 @@ class Judge(object):
         m.update(kw)
         return m
 
-    def bad(self, detail, **kw):
-        self.failed = True
+    def bad(self, detail, fatal=True, **kw):
+        if fatal:
+            self.failed = True
         self.run.violation(self.mech(**kw), dict(self.case, spec=self.spec, ops=self.ops),
                            '%s | config: backend=%s meta=%s buffer=%s src=%s tz=%s rule=%r | history so far: %s' % (
                                detail, self.spec['backend'], self.spec['shape'], self.spec['buffer'], self.spec['src'],
@@ -714,7 +739,7 @@ def run_serve(run, case, spec, ops, d):
                 back = w.raw(c)
                 if back is None or abs(back[1] - got) > 1e-3 or hashlib.sha1(back[0]).hexdigest() != model[c]['hash']:
                     raise RuntimeError('stamping %r failed: wanted %r wrote %r read back %r' % (c, want, got, back and back[1]))
-                model[c]['ts'] = got
+                model[c]['ts'] = want      # the time of the (simulated) write; sqlite stores its floor
                 model[c]['d'] = delta_class(dl)
                 pending_recover.discard(c)
                 n += 1
@@ -826,6 +851,14 @@ def run_serve(run, case, spec, ops, d):
                         run.count('failed_refresh_changed_timestamp')
                     if t in tiles:
                         pending_recover.add(t)
+            # something stored for a tile that was missing (an undecodable body labelled image/png is stored unchecked):
+            # no old tile was involved, so this is not C13's subject; the cache now holds a tile without a content epoch
+            # and the history cannot be judged any further
+            if any(pre_raw[t] is None and w.raw(t) is not None for t in universe):
+                run.dc('failing_upstream_stored_something_for_a_missing_tile')
+                run.hit('histories')
+                run.hit('serve_histories')
+                return
             continue
         # ---- healthy upstream ---------------------------------------------------------------------------------------
         if imgs is None:
@@ -901,7 +934,7 @@ def run_serve(run, case, spec, ops, d):
                     return
                 continue
             h = hashlib.sha1(rw[0]).hexdigest()
-            if t in model and h == model[t]['hash'] and abs(rw[1] - model[t]['ts']) < 1e-3:
+            if t in model and h == model[t]['hash'] and w.same_ts(rw[1], model[t]['ts']):
                 continue
             e = w.decode_bytes(t, rw[0], prefer=(epoch,))
             if t in cover and e != epoch and t in tiles and pre.get(t) in ('stale', 'missing'):
@@ -1015,8 +1048,10 @@ def run_seed(run, case, spec, sops, d):
     w.tm._refresh_before = {}
     with local_base_config(w.sc.conf.base_config):
         with w.tm.session():
-            for i in range(0, len(want), 24):
-                w.tm.load_tile_coords(want[i:i + 24])
+            for z in sorted(set(c[2] for c in want)):       # one level per call, as every caller in mapproxy does
+                lv = [c for c in want if c[2] == z]
+                for i in range(0, len(lv), 24):
+                    w.tm.load_tile_coords(lv[i:i + 24])
     w.tm._refresh_before = saved
     # tiles created as by-catch of meta tiles but meant to be missing: remove them raw
     for a in sops['assign']:
@@ -1042,7 +1077,8 @@ def run_seed(run, case, spec, sops, d):
             raise RuntimeError('fill did not create %r' % (c,))
         ts = rw[1]
         if dl is not None:
-            ts = w.set_ts(c, w.stamp_time(dl))
+            ts = w.stamp_time(dl)           # the time of the (simulated) write; sqlite stores its floor
+            w.set_ts(c, ts)
         model[c] = {'ts': ts, 'd': delta_class(dl), 'bytes': rw[0]}
     # independent reading of what the seed task must do
     cov = sops['coverage_bbox']
@@ -1143,6 +1179,7 @@ def run_seed(run, case, spec, sops, d):
                             return
                         if st == 'stale' and t in attempted:
                             run.hit('failed_refresh_kept_old')
+                            run.hit('seed_failed_refresh_kept_old')
                         continue
                     elif st == 'stale':
                         run.judge(J.cls(dcl, 'seed_stale'), nontrivial=True)
@@ -1155,8 +1192,14 @@ def run_seed(run, case, spec, sops, d):
                                       seed_rule, w.threshold(seed_rule), spec['skip_uncached'], t, model[t]['ts'], dcl, n, e, epoch,
                                       states),
                                   clause='seed_stale_not_refreshed', mixed_meta_tile=mixed, first_tile_state=corner,
-                                  skip_uncached=spec['skip_uncached'], delta=dcl if not mixed else 'mixed')
-                            return
+                                  skip_uncached=spec['skip_uncached'], delta=dcl if not mixed else 'mixed',
+                                  fatal=not (mixed and corner != 'stale'))
+                            if J.failed:
+                                return
+                            # a meta tile whose first tile is not stale is skipped by the seeder as a whole: reported once
+                            # per tile, the history goes on
+                            run.count('seed_stale_left_in_mixed_meta_tile')
+                            continue
                         if n != 1:
                             J.bad('seed task fetched stale tile %r %d times' % (t, n), clause='refetched_more_than_once')
                             return
@@ -1177,7 +1220,7 @@ def run_seed(run, case, spec, sops, d):
                         else:
                             run.count('fresh_in_refetched_meta_tile')
                     # sync
-                    if now_raw is not None and (now_raw[0] != model[t]['bytes'] or abs(now_raw[1] - model[t]['ts']) > 1e-3):
+                    if now_raw is not None and (now_raw[0] != model[t]['bytes'] or not w.same_ts(now_raw[1], model[t]['ts'])):
                         if fail:
                             continue
                         model[t] = {'ts': now_raw[1], 'd': 'written_now', 'bytes': now_raw[0]}
